@@ -162,7 +162,14 @@ namespace awkward {
   void
   ToJsonString::complex(std::complex<double> x) {
     if (complex_real_string_ != nullptr  &&  complex_imag_string_ != nullptr) {
-      impl_->complex(x, complex_real_string_, complex_imag_string_);
+      // write the parts through this class's real(), which applies the
+      // nan/infinity replacement strings (Impl::real would bypass them)
+      beginrecord();
+      field(complex_real_string_);
+      real(x.real());
+      field(complex_imag_string_);
+      real(x.imag());
+      endrecord();
     }
     else {
       throw std::invalid_argument(
@@ -303,7 +310,14 @@ namespace awkward {
   void
   ToJsonPrettyString::complex(std::complex<double> x) {
     if (complex_real_string_ != nullptr  &&  complex_imag_string_ != nullptr) {
-      impl_->complex(x, complex_real_string_, complex_imag_string_);
+      // write the parts through this class's real(), which applies the
+      // nan/infinity replacement strings (Impl::real would bypass them)
+      beginrecord();
+      field(complex_real_string_);
+      real(x.real());
+      field(complex_imag_string_);
+      real(x.imag());
+      endrecord();
     }
     else {
       throw std::invalid_argument(
@@ -448,7 +462,14 @@ namespace awkward {
   void
   ToJsonFile::complex(std::complex<double> x) {
     if (complex_real_string_ != nullptr  &&  complex_imag_string_ != nullptr) {
-      impl_->complex(x, complex_real_string_, complex_imag_string_);
+      // write the parts through this class's real(), which applies the
+      // nan/infinity replacement strings (Impl::real would bypass them)
+      beginrecord();
+      field(complex_real_string_);
+      real(x.real());
+      field(complex_imag_string_);
+      real(x.imag());
+      endrecord();
     }
     else {
       throw std::invalid_argument(
@@ -590,7 +611,14 @@ namespace awkward {
   void
   ToJsonPrettyFile::complex(std::complex<double> x) {
     if (complex_real_string_ != nullptr  &&  complex_imag_string_ != nullptr) {
-      impl_->complex(x, complex_real_string_, complex_imag_string_);
+      // write the parts through this class's real(), which applies the
+      // nan/infinity replacement strings (Impl::real would bypass them)
+      beginrecord();
+      field(complex_real_string_);
+      real(x.real());
+      field(complex_imag_string_);
+      real(x.imag());
+      endrecord();
     }
     else {
       throw std::invalid_argument(
